@@ -74,6 +74,11 @@ func c03Kinds() []operandKind {
 		{`"b"`, strLit("b"), vp(val.S("b"))},
 		{`"10"`, strLit("10"), vp(val.S("10"))},
 		{`"é"`, strLit("é"), vp(val.S("é"))},
+		// code point order, not UTF-16 unit order: U+FF21 < U+1F600, U+FFFD < U+10000
+		{`"Ａ"`, strLit("Ａ"), vp(val.S("Ａ"))},
+		{`"😀"`, strLit("😀"), vp(val.S("😀"))},
+		{`"caf𐀀"`, strLit("caf𐀀"), vp(val.S("caf𐀀"))},
+		{`"caf�"`, strLit("caf�"), vp(val.S("caf�"))},
 		mk("true", "true"),
 		mk("false", "false"),
 		// JSON null inside input documents is excluded (the port treats it as
